@@ -126,7 +126,7 @@ def is_refusal(res):
 
 # ---- generators ------------------------------------------------------------------------------
 
-def gen_race_history(w, rng, tier, regime=None, restarts=True, ties=True):
+def gen_race_history(w, rng, tier, regime=None, restarts=True, ties=True, p_rewrap=0.25, p_leave=0.0, p_adv=0.25):
     """setup, then rounds of concurrent actions on one epoch, per-client shuffled delivery with
     duplication, then quiescence rounds"""
     n = rng.choice([2, 3, 3, 4, 5] if tier == "quick" else [2, 3, 4, 5, 6])
@@ -136,7 +136,7 @@ def gen_race_history(w, rng, tier, regime=None, restarts=True, ties=True):
     if 0 not in admins:
         admins = [0] + admins[:-1] if len(admins) > 1 else [0]
     retention = rng.choice([5, 5, 5, 2, 1])
-    w.meta = {"n": n, "backends": backends, "admins": admins, "retention": retention}
+    w.meta = {"n": n, "backends": backends, "admins": admins, "retention": retention, "p_rewrap": p_rewrap, "p_leave": p_leave}
     w.setup_group(n, backends, admins, retention)
     regime = regime or rng.choice(["inorder", "causal", "unrestricted"])
     apply_mode = {c: rng.choice(["echo", "echo", "immediate"]) for c in range(n)}
@@ -168,6 +168,28 @@ def gen_race_history(w, rng, tier, regime=None, restarts=True, ties=True):
                 w.events[e]["apply"] = apply_mode[c]
                 if apply_mode[c] == "immediate":
                     w.do(f"merge {c}")
+        # an observer re-wraps a published event (same ciphertext, fresh ephemeral key, chosen timestamp)
+        if new and rng.random() < w.meta.get("p_rewrap", 0.25):
+            victim = rng.choice(new)
+            r, _ = w.do(f"rewrap {victim} {base + rng.choice([-8, -3, 0, 4, 9])}")
+            m = re.match(r"ev=(\d+) idnum=(\d+) ts=(-?\d+)", r)
+            if m:
+                k = int(m.group(1))
+                w.events[k] = dict(w.events[victim]); w.events[k].update({"ts": int(m.group(3)), "idnum": int(m.group(2)), "rewrap_of": victim, "line": f"rewrap {victim}"})
+                new.append(k)
+        # a member asks to leave (a proposal; an admin receiver auto-commits it)
+        if rng.random() < w.meta.get("p_leave", 0.0):
+            s = rng.randrange(n); ts += 1
+            e = w.publish(f"leave {s} {ts}", "proposal", s)
+            if e is not None: new.append(e)
+        # a NON-admin member builds a Remove commit with the MLS library directly, with a chosen timestamp
+        nonadmins = [c for c in range(n) if c not in admins]
+        if nonadmins and rng.random() < p_adv:
+            a = rng.choice(nonadmins); victim = rng.choice([c for c in range(n) if c != a])
+            e = w.publish(f"advremove {a} {victim} {base + rng.choice([-9, -4, 0, 3, 8])}", "commit", a)
+            if e is not None:
+                w.events[e]["adv"] = True
+                new.append(e)
         ts = base + 5
         # messages after (from clients on their own — possibly pending — state)
         for _ in range(rng.randint(0, 2)):
@@ -253,7 +275,7 @@ def oracle_world(w):
     fails = []
     SHARED = {"rollback-before-authorisation": ["C01", "C05", "C06"], "refused-after-rollback": ["C06", "C01"],
               "hydrated-timestamp-zero": ["C01", "C11"], "handshake-before-predecessor-blocked": ["C01", "C02"],
-              "record-not-synced": ["C08", "C06"]}
+              "record-not-synced": ["C08", "C06"], "rewrapped-commit-rollback": ["C06", "C01", "C07", "C02"]}
     def fail(prop, sig, step, what):
         fails.append({"kind": "oracle", "prop": prop, "props": sorted(set([prop] + SHARED.get(sig, []))), "signature": sig,
                       "what": f"world {w.id} step {step}: {what}", "replay_body": w.text(step, what)})
@@ -277,7 +299,12 @@ def oracle_world(w):
                     ev = w.events.get(int(t[2]), {})
                     sig = "refused-with-effect"
                     if before["epoch"] > f["epoch"]:
-                        sig = "rollback-before-authorisation" if r0.startswith("err:CommitFromNonAdmin") else "refused-after-rollback"
+                        sig = "rollback-before-authorisation" if (r0.startswith("err:CommitFromNonAdmin") or ev.get("adv")) else "refused-after-rollback"
+                        n_ev = int(t[2])
+                        if ev.get("rewrap_of") is not None or any(x.get("rewrap_of") == n_ev for x in w.events.values()):
+                            # the same commit ciphertext under two wrappers: the later-applied one is 'better' by
+                            # timestamp, the rollback happens, and the ciphertext cannot be decrypted a second time
+                            sig = "rewrapped-commit-rollback"
                     fail("C06", sig, i, f"`{cmd}` returned {r0} but the projection changed: {proj(before)} -> {proj(f)}")
                 key = (c, int(t[2]))
                 rec = before["recs"].get(int(t[2]))
@@ -286,6 +313,11 @@ def oracle_world(w):
                 if not is_refusal(r0):
                     seen_effect[key] = True
         if c is not None:
+            old = prev_fp.get(c)
+            if old is not None and f is not None and f["epoch"] < old["epoch"]:
+                # a rollback un-applied everything above the new epoch: those events are no longer "in effect"
+                for key in [k for k in seen_effect if k[0] == c and (w.events.get(k[1], {}).get("parent_epoch") or 0) >= f["epoch"]]:
+                    seen_effect.pop(key)
             prev_fp[c] = f
     # ---- convergence (C01) and messages (C02) at quiescence ----
     final = {c: w.fps.get(c) for c in range(w.n_clients)}
@@ -296,6 +328,9 @@ def oracle_world(w):
         views = {(f["epoch"], f["token"], f["members"], f["admins"], f["name"], f["desc"], f["nid"], f["relays"]) for f in live.values()}
         if len(views) > 1:
             sig = classify_divergence(w, live)
+            if sig == "divergence-unclassified":
+                knocked = [x["signature"] for x in fails if x["signature"] in ("rollback-before-authorisation", "rewrapped-commit-rollback")]
+                sig = knocked[0] if knocked else sig
             facts["divergence"] = sig
             if sig != "fork-deeper-than-retention":
                 fail("C01", sig, len(w.trace) - 1, f"after quiescence the remaining members hold {len(views)} different states: " +
@@ -307,9 +342,9 @@ def oracle_world(w):
             for cmd, res, fp in w.trace:
                 if cmd.startswith("create "):
                     tok0 = parse_fp(fp)["token"]; break
-            cur, chain = tok0, []
+            cur, chain, win_tokens = tok0, [], [tok0]
             while len(chain) < 64:
-                cands = [n for n, e in commits.items() if e["parent_token"] == cur and n not in chain]
+                cands = [n for n, e in commits.items() if e["parent_token"] == cur and n not in chain and not e.get("adv")]
                 if not cands:
                     break
                 best = min(cands, key=lambda n: (commits[n]["ts"], commits[n]["idnum"]))
@@ -318,10 +353,38 @@ def oracle_world(w):
                 if not nxt:
                     cur = None; break
                 cur = sorted(nxt)[0]
+                win_tokens.append(cur)
             common = next(iter(live.values()))["token"]
             facts["winner_chain"] = chain
+            facts["winner_tokens"] = win_tokens
             if cur is None or cur != common:
-                fail("C01", "converged-not-mip03", len(w.trace) - 1, f"members agree on T{common} but the MIP-03 chain {chain} ends in T{cur}")
+                knocked = [x["signature"] for x in fails if x["signature"] in ("rollback-before-authorisation", "rewrapped-commit-rollback")]
+                fail("C01", knocked[0] if knocked else "converged-not-mip03", len(w.trace) - 1, f"members agree on T{common} but the MIP-03 chain {chain} ends in T{cur}")
+    # C02: a message created on the winning branch ends stored, valid, at every remaining member
+    if getattr(w, "quiesced", False) and live and facts.get("winner_tokens"):
+        for n, e in w.events.items():
+            if e["kind"] != "app" or e["mid"] is None or e.get("rewrap_of") is not None:
+                continue
+            if e["parent_token"] not in facts["winner_tokens"]:
+                continue
+            for c, f in live.items():
+                rows = [m for m in f["msgs"] if m["id"].rstrip("!") == e["mid"]]
+                rec = f["recs"].get(n)
+                if not rows:
+                    sig = "handshake-before-predecessor-blocked" if rec and rec[0] == "f" and rec[1] == "-" else "winning-message-missing"
+                    fail("C02", sig, len(w.trace) - 1, f"message {e['mid']} (event {n}, sent on the winning branch by c{e['sender']}) is not stored at c{c} (record {rec})")
+                elif rows[0]["state"] not in ("p",) and not (c == e["sender"] and rows[0]["state"] == "c" and rec is None):
+                    if rows[0]["state"] != "x":
+                        sig = "winning-message-not-valid"
+                    elif str(rows[0]["epoch"]) != str(e["parent_epoch"]):
+                        # received copies are filed under the receiver's epoch (open finding); the SENDER's own copy
+                        # is filed by create_message under its creation epoch and must keep it
+                        sig = "own-message-refiled" if c == e["sender"] else "receiver-epoch-tag"
+                    elif any(x["signature"] == "rewrapped-commit-rollback" for x in fails):
+                        sig = "rewrapped-commit-rollback"   # correctly tagged, but the client was knocked back by a re-wrapped commit
+                    else:
+                        sig = "winning-message-invalidated"
+                    fail("C02", sig, len(w.trace) - 1, f"message {e['mid']} (event {n}, winning branch) is stored at c{c} in state {rows[0]['state']} (epoch tag {rows[0]['epoch']}, record {rec})")
     # C02: every message created on the winning branch is stored exactly once, valid, at every live client
     if getattr(w, "quiesced", False) and live:
         for n, e in w.events.items():
@@ -343,10 +406,26 @@ def classify_divergence(w, live):
     for c, f in live.items():
         mine = [n for n, e in commits.items() if e["sender"] == c and e.get("apply") == "immediate"]
         for n in mine:
-            rivals = [m for m, e in commits.items() if e["parent_token"] == commits[n]["parent_token"] and m != n
+            rivals = [m for m, e in commits.items() if e["parent_token"] == commits[n]["parent_token"] and m != n and not e.get("adv")
                       and (e["ts"], e["idnum"]) < (commits[n]["ts"], commits[n]["idnum"])]
             if rivals:
                 return "immediate-merge-no-snapshot"
+    # somebody rolled back for an unauthorised commit and lost the legitimate one
+    for cmd, res, fp in w.trace:
+        t = cmd.split()
+        if t[0] == "deliver" and res.split()[0] == "err:CommitFromNonAdmin" and w.events.get(int(t[2]), {}).get("adv"):
+            f = parse_fp(fp)
+            if f and any(st == "x" for st, _ in f["recs"].values()):
+                return "rollback-before-authorisation"
+    # somebody was knocked back by a re-wrapped copy of an applied commit
+    for cmd, res, fp in w.trace:
+        t = cmd.split()
+        if t[0] == "deliver" and res.split()[0] == "unprocessable":
+            n_ev = int(t[2]); ev = w.events.get(n_ev, {})
+            if ev.get("kind") == "commit" and (ev.get("rewrap_of") is not None or any(x.get("rewrap_of") == n_ev for x in w.events.values())):
+                f = parse_fp(fp)
+                if f and f["recs"].get(n_ev, ("", ""))[0] == "f":
+                    return "rewrapped-commit-rollback"
     # a commit on somebody's path is blocked (Failed, no epoch) at a lagging client
     for c, f in live.items():
         for n, e in commits.items():
@@ -402,6 +481,9 @@ def model_input(w):
             out.append((i, f"name {t[1]} {t[3]} {ev.group(1)} {ev.group(3)} {ev.group(2)}" if ev else f"name {t[1]} {t[3]} 9999 0 0"))
         elif t[0] == "leave":
             out.append((i, f"leave {t[1]} {ev.group(1)} {ev.group(3)} {ev.group(2)}" if ev else f"leave {t[1]} 9999 0 0"))
+        elif t[0] == "advremove":
+            if ev:      # the crafting itself can fail in OpenMLS (e.g. the adversary has a commit pending): nothing is published
+                out.append((i, f"advremove {t[1]} {t[2]} {ev.group(1)} {ev.group(3)} {ev.group(2)}"))
         elif t[0] in ("merge", "clear", "restart", "fp"):
             out.append((i, f"{t[0]} {t[1]}"))
         elif t[0] == "deliver":
@@ -521,3 +603,51 @@ def oracle_c11(pairs):
             fails.append({"kind": "oracle", "prop": "C11", "props": ["C11", "C01"], "signature": "hydrated-timestamp-zero" if nrest else "nondeterministic-outcome",
                           "what": what[:900], "replay_body": b.text(None, what[:300]) + "# --- the same script without restarts ---\n" + a.text()})
     return fails, stats
+
+
+def replay_world(path, wid=None):
+    """execute a stored command trace (corpus / replay file) on the harness; result lines in the file are ignored"""
+    w = World(wid or f"corpus:{os.path.basename(path)}")
+    cmds = [l.strip() for l in open(path) if l.strip() and not l.startswith("#")]
+    backends, retention, admins = [], 5, [0]
+    try:
+        for c in cmds:
+            t = c.split()
+            if t[0] == "world":
+                continue
+            if t[0] == "client":
+                backends.append(t[2]); retention = int(t[3])
+            if t[0] == "create":
+                admins = [int(x) for x in t[2].split(",") if x not in ("", "-")]
+            if t[0] in ("send", "selfupdate", "data", "leave", "advremove"):
+                kind = "app" if t[0] == "send" else ("proposal" if t[0] == "leave" else "commit")
+                w.publish(c, kind, int(t[1]))
+            elif t[0] == "rewrap":
+                r, _ = w.do(c)
+                m = re.match(r"ev=(\d+) idnum=(\d+) ts=(-?\d+)", r)
+                if m:
+                    k, victim = int(m.group(1)), int(t[1])
+                    w.events[k] = dict(w.events.get(victim, {})); w.events[k].update({"ts": int(m.group(3)), "idnum": int(m.group(2)), "rewrap_of": victim})
+            elif t[0] == "deliver":
+                w.deliver(int(t[1]), int(t[2]))
+            else:
+                w.do(c)
+                if t[0] == "client":
+                    w.n_clients += 1; w.backends.append(t[2])
+        w.meta = {"n": len(backends), "backends": backends, "admins": admins, "retention": retention}
+        w.quiesced = False
+    except RuntimeError as e:
+        w.crashed = str(e)
+    finally:
+        w.close()
+    return w
+
+def load_corpus(prop):
+    d = os.path.join(C.VERIF, "corpus", prop)
+    res = []
+    if os.path.isdir(d):
+        for f in sorted(os.listdir(d)):
+            p = os.path.join(d, f)
+            if f.endswith(".trace") and open(p).read().lstrip("# \n").find("world") >= 0 and any(l.strip() == "world" for l in open(p)):
+                res.append(replay_world(p))
+    return res
